@@ -109,8 +109,10 @@ pub fn charinfo_line(c: char) -> String {
     use unicode_width::UnicodeWidthChar;
     let up: String = c.to_uppercase().collect();
     let lo: String = c.to_lowercase().collect();
+    // `width`: UnicodeWidthChar (layout::cwidh); `swidth`: UnicodeWidthStr of the one-char string
+    // (layout::uwidth — differs for control characters)
     format!(
-        "charinfo {} {} {} {} {} {} {} {}",
+        "charinfo {} {} {} {} {} {} {} {} {}",
         c as u32,
         enc_bool(c.is_alphanumeric()),
         enc_bool(c.is_whitespace()),
@@ -118,7 +120,8 @@ pub fn charinfo_line(c: char) -> String {
         gcb_class(c),
         c.width().unwrap_or(0),
         enc_text(&up),
-        enc_text(&lo)
+        enc_text(&lo),
+        unicode_width::UnicodeWidthStr::width(c.to_string().as_str())
     )
 }
 
@@ -129,8 +132,29 @@ pub struct CharInfoEmitter {
     seen: BTreeSet<u32>,
 }
 impl CharInfoEmitter {
+    /// the character and everything its case mappings can produce
+    fn emit_closure(&mut self, c: char, out: &mut Vec<String>) {
+        let mut todo = vec![c];
+        while let Some(c) = todo.pop() {
+            if self.seen.insert(c as u32) {
+                out.push(charinfo_line(c));
+                todo.extend(c.to_uppercase());
+                todo.extend(c.to_lowercase());
+            }
+        }
+    }
     pub fn lines_for(&mut self, req: &str) -> Vec<String> {
         let mut out = vec![];
+        // key tokens are hex byte strings: the characters they encode need a line too
+        for tok in req.split(' ') {
+            if tok.len() >= 2 && tok.len() % 2 == 0 && tok.bytes().all(|b| b.is_ascii_hexdigit()) {
+                let bytes: Vec<u8> =
+                    (0..tok.len()).step_by(2).filter_map(|i| u8::from_str_radix(&tok[i..i + 2], 16).ok()).collect();
+                for c in String::from_utf8_lossy(&bytes).chars() {
+                    self.emit_closure(c, &mut out);
+                }
+            }
+        }
         let mut cur: Option<u64> = None;
         for ch in req.chars().chain(std::iter::once(' ')) {
             if let Some(d) = ch.to_digit(10) {
@@ -138,9 +162,7 @@ impl CharInfoEmitter {
             } else if let Some(v) = cur.take() {
                 if v <= 0x10FFFF {
                     if let Some(c) = char::from_u32(v as u32) {
-                        if self.seen.insert(v as u32) {
-                            out.push(charinfo_line(c));
-                        }
+                        self.emit_closure(c, &mut out);
                     }
                 }
             }
